@@ -159,7 +159,7 @@ def display_module(E, facts, derives=("Display",)):
     body = []
     for i, v in enumerate(E["variants"]):
         k = i + 1
-        if v["dis"] or v["transp"] or v["def"]:
+        if v["dis"] or v["transp"] or (v["def"] and not v["ts"]):
             continue
         mut = [f["ty"] == "mutref" for f in v["fields"]]
         if facts["interp"][i]:
